@@ -157,6 +157,15 @@ def density_breakpoints(spec):
     return []
 
 
+def resolution_floor(spec):
+    """smallest chain intensity that the closed-form cell masses can resolve: 1e-9 in absolute terms, and -- for compound-Poisson measures,
+    whose masses are differences of distribution functions with an absolute rounding of ~1e-16 x the total intensity of the MODEL -- a
+    millionth of that total intensity (a grid that carries less of the model's mass than that is outside the domain)"""
+    margins = spec["margins"] if "margins" in spec else [spec]
+    tot = max([float(m["params"]["intensity"]) for m in margins if m["family"] in ("HEM", "MERTON")] + [0.0])
+    return max(1e-9, 1e-6 * tot)
+
+
 def activity_index(spec):
     """alpha such that nu(x) ~ |x|^(-1-alpha) near 0 (minus infinity for finite-activity compound Poisson)."""
     if spec["family"] in ("HEM", "MERTON", "BS"):
